@@ -20,8 +20,34 @@ ToTree(es) ==
   [p \in {es[i].p : i \in 1..Len(es)} |->
      LET e == es[CHOOSE i \in 1..Len(es) : es[i].p = p] IN [k |-> e.k, d |-> e.d, n |-> e.n]]
 
-VARIABLES l, bad, base, cur
-jvars == <<l, bad, base, cur>>
+VARIABLES l, bad, base, cur, tagof
+jvars == <<l, bad, base, cur, tagof>>
+
+(***************************************************************************)
+(* C04, tag agreement.  tagof maps a path to the entity tag the server has *)
+(* announced for it since the resource was last written (threaded through  *)
+(* histories only).  Every later announcement -- PUT, GET, HEAD response   *)
+(* header or PROPFIND getetag -- for the same unmodified resource must be  *)
+(* the same string.                                                        *)
+(***************************************************************************)
+Restrict(f, S) == [x \in (DOMAIN f) \cap S |-> f[x]]
+Touched(pre, post, e) ==       \* paths whose tag may legitimately change in this step
+  LET r == e.req
+      p == Normalize(r.p) IN
+  IF e.st >= 400 \/ e.panic THEN (IF post = pre THEN (IF e.touched THEN {p} ELSE {}) ELSE DOMAIN pre \cup DOMAIN post)
+  ELSE {q \in DOMAIN pre \cup DOMAIN post :
+          \/ (r.m \in {"PUT", "DELETE", "MOVE", "MKCOL"} /\ Under(q, p))
+          \/ (r.m \in {"COPY", "MOVE"} /\ Under(q, Normalize(r.dp)))
+          \/ (e.touched /\ q = p)}
+Ann(e) ==
+  LET r == e.req IN
+  IF e.st >= 300 \/ e.panic THEN {}
+  ELSE IF r.m \in {"GET", "HEAD", "PUT"} THEN (IF e.rep.tag # "" THEN {<<Normalize(r.p), e.rep.tag>>} ELSE {})
+  ELSE IF r.m = "PROPFIND" THEN {<<Normalize(e.rep.ms[i].href), e.rep.ms[i].tag>> : i \in {j \in 1..Len(e.rep.ms) : e.rep.ms[j].tag # ""}}
+  ELSE {}
+TagsAgree(kept, ann) == \A a \in ann : a[1] \in DOMAIN kept => kept[a[1]] = a[2]
+Bind(kept, ann) == [q \in (DOMAIN kept) \cup {a[1] : a \in ann} |->
+                      IF q \in DOMAIN kept THEN kept[q] ELSE (CHOOSE a \in ann : a[1] = q)[2]]
 
 KindX(t, p) == LET k == Kind(t, p) IN
                IF k = "c" THEN (IF Members(t, p) = {} THEN "cE" ELSE "cN") ELSE k
@@ -60,33 +86,46 @@ Explained(pre, e, post) ==
      /\ post = o.t
      /\ (o.ok => ReportOK(pre, e.req, e.rep))
 
-JInit == l = 1 /\ bad = 0 /\ base = (Root :> Coll) /\ cur = (Root :> Coll)
+JInit == l = 1 /\ bad = 0 /\ base = (Root :> Coll) /\ cur = (Root :> Coll) /\ tagof = << >>
 
 StepTree(e) ==
   /\ e.k = "tree"
-  /\ base' = ToTree(e.t) /\ cur' = ToTree(e.t) /\ bad' = bad
+  /\ base' = ToTree(e.t) /\ cur' = ToTree(e.t) /\ bad' = bad /\ tagof' = << >>
+
+\* a step whose header class could not be established by the recorder is threaded but not judged
+StepSkipped(e) ==
+  /\ e.k = "step" /\ e.skip # ""
+  /\ cur' = (IF e.same THEN (IF e.from = "base" THEN base ELSE cur) ELSE ToTree(e.post))
+  /\ base' = base /\ bad' = bad /\ tagof' = << >>
 
 StepReq(e) ==
-  /\ e.k = "step"
+  /\ e.k = "step" /\ e.skip = ""
   /\ LET pre == IF e.from = "base" THEN base ELSE cur
          post == IF e.same THEN pre ELSE ToTree(e.post)
          c01 == ~e.panic /\ Explained(pre, e, post)
          c02 == (e.st >= 400 \/ e.panic) => post = pre
          c03 == e.outside = "same" /\ ~e.secret
          c17 == ~e.leak
+         kept == IF e.from = "base" THEN << >> ELSE Restrict(tagof, (DOMAIN tagof) \ Touched(pre, post, e))
+         ann == IF e.from = "base" THEN {} ELSE Ann(e)
+         c04 == TagsAgree(kept, ann)
          sig == Sig(pre, e.req, e.st, post)
-         nb == (IF c01 THEN 0 ELSE 1) + (IF c02 THEN 0 ELSE 1) + (IF c03 THEN 0 ELSE 1) + (IF c17 THEN 0 ELSE 1)
+         nb == (IF c01 THEN 0 ELSE 1) + (IF c02 THEN 0 ELSE 1) + (IF c03 THEN 0 ELSE 1) + (IF c17 THEN 0 ELSE 1) + (IF c04 THEN 0 ELSE 1)
+     \* NOTE: the printing disjunctions must come after every primed variable is assigned; before that TLC
+     \* treats "c \/ PrintT(..)" as an action-level disjunction and explores (prints) both branches.
      IN /\ cur' = post
+        /\ tagof' = (IF c04 THEN Bind(kept, ann) ELSE Bind(<< >>, ann))
         /\ base' = base
         /\ bad' = bad + nb
         /\ (c01 \/ PrintT("REJECT|" \o ToString(l) \o "|" \o "C01 " \o sig))
         /\ (c02 \/ PrintT("REJECT|" \o ToString(l) \o "|" \o "C02 " \o sig))
         /\ (c03 \/ PrintT("REJECT|" \o ToString(l) \o "|" \o "C03 " \o sig \o " outside=" \o e.outside \o (IF e.secret THEN " secret" ELSE "")))
         /\ (c17 \/ PrintT("REJECT|" \o ToString(l) \o "|" \o "C17 " \o sig))
+        /\ (c04 \/ PrintT("REJECT|" \o ToString(l) \o "|" \o "C04 tag-changed-without-write " \o sig))
 
 JNext == /\ l <= Len(Obs)
          /\ l' = l + 1
-         /\ (StepTree(Obs[l]) \/ StepReq(Obs[l]))
+         /\ (StepTree(Obs[l]) \/ StepReq(Obs[l]) \/ StepSkipped(Obs[l]))
 JSpec == JInit /\ [][JNext]_jvars
 Done == (l = Len(Obs) + 1) => PrintT(<<"DONE", Len(Obs), bad>>)
 =============================================================================
